@@ -403,40 +403,40 @@ func c07(c *core.Ctx, r *core.Report) {
 func init() {
 	extra["C07"] = append(extra["C07"], func(c *core.Ctx, r *core.Report) {
 		rule(r, "C07.R6", "recover() is called only by functions deferred from frames that themselves call user code (the frames of R1): a recover anywhere else stops a FailNow/panic before it reaches the iteration's frame, so the rest of the body keeps running", func() {
-		frames := map[*ssa.Function]bool{}
-		for _, u := range userCalls(c) {
-			frames[u.Fn] = true
-		}
-		n := 0
-		for _, fn := range c.AllFuncs {
-			if !core.InModule(fn) {
-				continue
+			frames := map[*ssa.Function]bool{}
+			for _, u := range userCalls(c) {
+				frames[u.Fn] = true
 			}
-			if _, ok := recovering(fn); !ok {
-				continue
-			}
-			n++
-			// where is it deferred?
-			sites := 0
-			for _, g := range c.AllFuncs {
-				for _, call := range an.AllCalls(g) {
-					d, isDefer := call.(*ssa.Defer)
-					if !isDefer || an.Callee(d) != fn {
-						continue
+			n := 0
+			for _, fn := range c.AllFuncs {
+				if !core.InModule(fn) {
+					continue
+				}
+				if _, ok := recovering(fn); !ok {
+					continue
+				}
+				n++
+				// where is it deferred?
+				sites := 0
+				for _, g := range c.AllFuncs {
+					for _, call := range an.AllCalls(g) {
+						d, isDefer := call.(*ssa.Defer)
+						if !isDefer || an.Callee(d) != fn {
+							continue
+						}
+						sites++
+						key := core.FuncName(g) + "#defer→" + fn.Name()
+						r.Check(frames[g], key, an.Pos(c, d), "deferred from a frame that calls user code", sprintf("%s defers %s, which calls recover(), but %s is not a frame that calls a scenario/iteration/cleanup function: a FailNow or panic unwinding through it (it is reachable from user code) ends here and the caller carries on", core.FuncName(g), core.FuncName(fn), core.FuncName(g)))
 					}
-					sites++
-					key := core.FuncName(g) + "#defer→" + fn.Name()
-					r.Check(frames[g], key, an.Pos(c, d), "deferred from a frame that calls user code", sprintf("%s defers %s, which calls recover(), but %s is not a frame that calls a scenario/iteration/cleanup function: a FailNow or panic unwinding through it (it is reachable from user code) ends here and the caller carries on", core.FuncName(g), core.FuncName(fn), core.FuncName(g)))
+				}
+				if sites == 0 {
+					r.Exists(core.FuncName(fn)+"#recover-not-deferred", c.Pos(fn.Pos()), "calls recover() but is never deferred directly (recover returns nil there)")
 				}
 			}
-			if sites == 0 {
-				r.Exists(core.FuncName(fn)+"#recover-not-deferred", c.Pos(fn.Pos()), "calls recover() but is never deferred directly (recover returns nil there)")
-			}
-		}
-		r.Floor("functions calling recover()", n, 1)
-	})
+			r.Floor("functions calling recover()", n, 1)
+		})
 
-	rule(r, "C07.R5", "handle isolation (so that an iteration is reported by its own outcome): "+freshStateText, func() { freshStateRule(c, r, false) })
+		rule(r, "C07.R5", "handle isolation (so that an iteration is reported by its own outcome): "+freshStateText, func() { freshStateRule(c, r, false) })
 	})
 }
 
